@@ -90,7 +90,7 @@ ClaimsAbout(W, pn, attr, signer) ==
    then attribute claims and delete claims, each delete naming an earlier item), so TLC's breadth-first
    search visits every world within the bounds once and evaluates the lemmas on each.  ClaimsGen reuses
    the same actions to enumerate the worlds that are replayed on the real code. *)
-CONSTANTS MaxClaims, MaxDeletes, SAttrs, SVals, SDates, DelDates, DelSigners, MixDeletes
+CONSTANTS MaxClaims, MaxDeletes, SAttrs, SVals, SDates, ClaimSigners, DelDates, DelSigners, MixDeletes
 VARIABLE world
 
 PN == 3
@@ -98,7 +98,7 @@ Base(i, k, s) == [id |-> i, kind |-> k, claim |-> "", pn |-> 0, attr |-> "", val
                   date |-> 0, nano |-> 0, signer |-> s, target |-> 0]
 World0 == {Base(1, "key", 1), Base(2, "key", 2), Base(PN, "permanode", 1)}
 Shapes == {[claim |-> k, attr |-> a, val |-> v, date |-> d, signer |-> s] :
-              k \in {"set", "add", "del"}, a \in SAttrs, v \in SVals \cup {0}, d \in SDates, s \in {1, 2}}
+              k \in {"set", "add", "del"}, a \in SAttrs, v \in SVals \cup {0}, d \in SDates, s \in ClaimSigners}
 GoodShapes == {sh \in Shapes : sh.val # 0 \/ sh.claim = "del"}
 Item(i, sh) == [id |-> i, kind |-> "claim", claim |-> sh.claim, pn |-> PN, attr |-> sh.attr, val |-> sh.val,
                 date |-> sh.date, nano |-> 0, signer |-> sh.signer, target |-> 0]
